@@ -46,3 +46,8 @@ def _r13a(p):
 def _r13a_c03(p):
     # fresh node refused a main-chain block, in a history where a block with a wrong ancestor list was accepted
     return not p.get("corr") and p.get("code") == 8
+
+
+@predicate("R13a-C06")
+def _r13a_c06(p):
+    return not p.get("corr") and p.get("code", 0) % 10000 == 85
